@@ -1,4 +1,4 @@
-\* two models, two names, two locations, two values: all histories of 3 operations
+\* two models, two names, two locations, two values + the space object A: all histories of 3 operations
 CONSTANTS
   Models = {"M1", "M2"}
   BaseInit = {"M1"}
